@@ -317,6 +317,13 @@ def r03_3(ctx: Ctx):
                     return True
                 if norm(src).startswith((f"{s.self_name()}.levels[", f"{s.self_name()}._levels[", f"{s.self_name()}.leaves", f"{s.self_name()}.active")):
                     return False
+        # a local list selected out of a level's demes: `[d for d in all_level_demes if <condition>]` counts only some of them
+        sdefs = local_defs(s)
+        for d_ in sdefs.get(name, []):
+            if isinstance(d_, ast.ListComp) and len(d_.generators) == 1 and d_.generators[0].ifs and isinstance(d_.generators[0].iter, ast.Name) and level_list_in_summary(d_.generators[0].iter.id) is True:
+                return False
+            if isinstance(d_, ast.ListComp) and len(d_.generators) == 1 and not d_.generators[0].ifs and isinstance(d_.generators[0].iter, ast.Name) and norm(d_.elt) == norm(d_.generators[0].target):
+                return level_list_in_summary(d_.generators[0].iter.id)
         return None
 
     for g, callsite in [(s, None)] + helpers:
@@ -361,6 +368,12 @@ def _sum_over_all_demes(ctx, t):
     while isinstance(v, ast.Name) and v.id in defs and len(defs[v.id]) == 1 and hops < 4:
         v = defs[v.id][0]
         hops += 1
+    if isinstance(v, ast.IfExp):
+        # one of the alternatives reads a counter of some other object (a problem shared with the outside, a cached total):
+        # that counter also moves when the object is used outside this tree
+        for arm in (v.body, v.orelse):
+            if isinstance(arm, ast.Attribute) and arm.attr in ("n_evaluations", "_n_evals") and not (isinstance(arm.value, ast.Name) and arm.value.id == t.self_name()):
+                return False, f"takes the total from `{norm(arm)}` on some path instead of summing the demes' own counters: whatever else evaluates through that object (another tree, the caller) is counted into this tree's total"
     if not (isinstance(v, ast.Call) and norm(v.func) == "sum" and len(v.args) == 1 and isinstance(v.args[0], (ast.GeneratorExp, ast.ListComp))):
         return None, f"is `{norm(v)[:80]}`, not recognisably a sum over demes"
     comp = v.args[0]
@@ -503,11 +516,16 @@ def r03_4(ctx: Ctx):
                         level_problem_exprs.append((c, k.value))
     for call in res_calls:
         nfev = next(k.value for k in call.keywords if k.arg == "nfev")
-        for present in (True, False):
-            label = "maxfun given" if present else "maxfun absent (maxiter only)"
+        has_iter = "maxiter" in f.params()
+        combos = [("maxfun given", True, False), ("maxfun absent (maxiter only)", False, True)] + ([("maxfun and maxiter given", True, True)] if has_iter else [])
+        for label, present, iter_present in combos:
             e = _eval_under(nfev, defs, param, present)
+            if has_iter:
+                e = _eval_under(e, defs, "maxiter", iter_present)
             verdict, why = _nfev_exact(ctx, f, e, defs, param, present, level_problem_exprs)
-            obs.append(ctx.ob("R03.4", f, nfev, status=verdict, detail=f"[{label}] nfev <- `{norm(e)}`: {why}", construct=f"nfev:{'present' if present else 'absent'}"))
+            if label == "maxfun and maxiter given" and verdict == OK:
+                continue  # the usual case: nothing new to say
+            obs.append(ctx.ob("R03.4", f, nfev, status=verdict, detail=f"[{label}] nfev <- `{norm(e)}`: {why}", construct=f"nfev:{'present' if present else 'absent'}{'+iter' if (present and iter_present) else ''}"))
     return obs
 
 
@@ -691,6 +709,10 @@ def _weighted_limit_status(w, tp, wdefs, rets):
         return VIOLATION, "filters the demes whose evaluations are counted (" + ", ".join(norm(c) for g in gens for c in g.ifs)[:80] + ")"
     elt = comp.elt
     factors = []
+    # a summand truncated / rounded per deme (`int(w * n)`): with fractional weights every deme loses up to one evaluation, so
+    # the weighted total stays below the limit after the exact total has reached it
+    if isinstance(elt, ast.Call) and norm(elt.func).split(".")[-1] in ("int", "floor", "round", "trunc", "ceil") and elt.args and any(isinstance(x, ast.Attribute) and x.attr == "n_evaluations" for x in ast.walk(elt.args[0])) and any(isinstance(x, ast.Attribute) and x.attr == "weights" for x in ast.walk(elt.args[0])):
+        return VIOLATION, f"every deme's weighted count is passed through `{norm(elt.func)}` (`{norm(elt)[:60]}`): with fractional level weights the total differs from the exact weighted sum by up to one evaluation per deme, so the limit is reported (and run() returns) at another boundary than the one where it is reached"
 
     def flat(e):
         if isinstance(e, ast.BinOp) and isinstance(e.op, ast.Mult):
